@@ -75,7 +75,7 @@ def refold(rng, ln, nl):
     return (nl + rng.choice([' ', '\t'])).join(pieces)
 
 
-REWRITES = ['lf', 'bom', 'str', 'refold', 'blank', 'case']
+REWRITES = ['lf', 'bom', 'str', 'refold', 'blank', 'case', 'lf-some', 'refold-mixed']
 
 
 def rewrite(rng, data, which):
@@ -84,6 +84,9 @@ def rewrite(rng, data, which):
     text = data if is_str else data.decode('utf-8')
     if which == 'lf':
         text = text.replace('\r\n', '\n')
+    elif which == 'lf-some':
+        # LF instead of CRLF at some of the line breaks only (texts pasted together from several producers)
+        text = re.sub('\r\n', lambda m: rng.choice(['\r\n', '\n']), text)
     elif which == 'bom':
         if not text.startswith('﻿'):
             text = '﻿' + text
@@ -94,7 +97,7 @@ def rewrite(rng, data, which):
         if not text.endswith('\n'):
             text += nl
         text += nl * rng.randint(1, 3)
-    elif which in ('refold', 'case'):
+    elif which in ('refold', 'case', 'refold-mixed'):
         nl = '\r\n' if '\r\n' in text else '\n'
         bom = text.startswith('﻿')
         body = text[1:] if bom else text
@@ -102,6 +105,11 @@ def rewrite(rng, data, which):
         if which == 'case':
             lines = [recase_line(rng, ln) for ln in lines]
             lines = [refold(rng, ln, nl) if len(ln.encode('utf-8')) > 70 else ln for ln in lines]
+        elif which == 'refold-mixed':
+            # each fold and each line end written with its own line break style
+            lines = [refold(rng, ln, rng.choice(['\r\n', '\n'])) for ln in lines]
+            text = ('﻿' if bom else '') + ''.join(ln + rng.choice(['\r\n', '\n']) for ln in lines)
+            return text if is_str else text.encode('utf-8')
         else:
             lines = [refold(rng, ln, nl) for ln in lines]
         text = ('﻿' if bom else '') + nl.join(lines) + nl
